@@ -64,6 +64,30 @@ class Recorder:
                 "samples": self.samples, "skipped": self.skipped}
 
 
+CPU_PLAN = (None, 2, None, 3, None, 5, None, 1)
+
+
+def _vary_cpus(i, rec):
+    """The machine a case runs on: every other case process sees another number of CPUs (1, 2, 3, 5 instead of
+    all of them) - its affinity mask is cut down to that many CPUs (what taskset / a batch scheduler does;
+    os.sched_getaffinity sees it) and os.cpu_count() (which multiprocessing.cpu_count() calls) reports the same
+    number. Pools the tools create without a size, and anything they derive from the CPU count, follow."""
+    if os.environ.get("VERIF_CPUS", "vary") != "vary":
+        return
+    k = CPU_PLAN[i % len(CPU_PLAN)]
+    try:
+        avail = sorted(os.sched_getaffinity(0))
+        if k is not None and len(avail) > k:
+            import random
+            os.sched_setaffinity(0, set(random.Random(i).sample(avail, k)))
+            os.cpu_count = lambda: k
+        else:
+            k = len(avail)
+    except (AttributeError, OSError):
+        return
+    rec.count("case_processes_with_cpus:%d" % k)
+
+
 def _child(i, case, fn, resdir, workroot, quiet):
     try:
         os.setpgid(0, 0)
@@ -75,6 +99,7 @@ def _child(i, case, fn, resdir, workroot, quiet):
     rec = Recorder(case)
     out = {"i": i}
     linecov.start(f"{os.getppid()}_{i}")
+    _vary_cpus(i, rec)
     try:
         if quiet:
             with common.quiet_fds(os.path.join(work, ".stdio")):
